@@ -1,6 +1,7 @@
 //! C13 — market-data attribution. For every `(ExchangeId, SubKind)` arm of `DynamicStreams::init`:
 //! the real `WebSocketSubMapper::map` builds the instrument map from `Keyed<usize, MarketDataInstrument>`
-//! subscriptions, synthesised venue JSON is deserialised by the real serde types and passed through the
+//! subscriptions (market formatted from the underlying) or from `MarketInstrumentData<usize>` subscriptions
+//! (`name_exchange` verbatim: the type the engine's indexed market stream uses; `@<name>:<kind>` tokens), synthesised venue JSON is deserialised by the real serde types and passed through the
 //! real `Transformer::transform` (`StatelessTransformer`, or the Binance L2 transformers initialised afresh
 //! per message with a snapshot at sequence 100 so that the update is a valid first update).
 //! Bitfinex's channel-id re-keying (`BitfinexWebSocketSubValidator::validate`, which needs a live socket)
@@ -13,6 +14,7 @@ use barter_data::{
     books::{Level, OrderBook},
     error::DataError,
     event::{DataKind, MarketEvent, MarketIter},
+    instrument::MarketInstrumentData,
     exchange::{
         Connector,
         binance::{
@@ -56,6 +58,7 @@ use barter_instrument::{
     exchange::ExchangeId,
     instrument::{
         kind::option::{OptionExercise, OptionKind},
+        name::InstrumentNameExchange,
         market_data::{
             MarketDataInstrument,
             kind::{MarketDataFutureContract, MarketDataInstrumentKind, MarketDataOptionContract},
@@ -72,6 +75,14 @@ use tokio::sync::mpsc;
 use vh::*;
 
 type Inst = Keyed<usize, MarketDataInstrument>;
+/// the instrument type of the engine's indexed market stream (`streams/builder/dynamic/indexed.rs`)
+type VInst = MarketInstrumentData<usize>;
+
+/// The instruments of one `sub` line: a Rust subscription list has ONE instrument type.
+enum Subs {
+    Formatted(Vec<MarketDataInstrument>),
+    Verbatim(Vec<(String, MarketDataInstrumentKind)>),
+}
 
 // ------------------------------------------------------------------------------------------ parsing
 
@@ -105,31 +116,54 @@ fn parse_date(s: &str) -> Option<DateTime<Utc>> {
     Some(Utc.from_utc_datetime(&nd.and_hms_opt(8, 0, 0)?))
 }
 
+fn parse_kind_fields(f: &[&str]) -> Option<MarketDataInstrumentKind> {
+    Some(match f {
+        ["S"] => MarketDataInstrumentKind::Spot,
+        ["P"] => MarketDataInstrumentKind::Perpetual,
+        [x] if x.starts_with('F') => MarketDataInstrumentKind::Future(MarketDataFutureContract {
+            expiry: parse_date(&x[1..])?,
+        }),
+        [x, k, c] if x.starts_with('O') => MarketDataInstrumentKind::Option(MarketDataOptionContract {
+            kind: match *c {
+                "C" => OptionKind::Call,
+                "P" => OptionKind::Put,
+                _ => return None,
+            },
+            exercise: OptionExercise::European,
+            expiry: parse_date(&x[1..])?,
+            strike: Decimal::from(k.parse::<u64>().ok()?),
+        }),
+        _ => return None,
+    })
+}
+
 fn parse_inst(tok: &str) -> Option<MarketDataInstrument> {
     let f: Vec<&str> = tok.split(':').collect();
-    let kind = match f.as_slice() {
-        [_, _, "S"] => MarketDataInstrumentKind::Spot,
-        [_, _, "P"] => MarketDataInstrumentKind::Perpetual,
-        [_, _, x] if x.starts_with('F') => {
-            MarketDataInstrumentKind::Future(MarketDataFutureContract {
-                expiry: parse_date(&x[1..])?,
-            })
-        }
-        [_, _, x, k, c] if x.starts_with('O') => {
-            MarketDataInstrumentKind::Option(MarketDataOptionContract {
-                kind: match *c {
-                    "C" => OptionKind::Call,
-                    "P" => OptionKind::Put,
-                    _ => return None,
-                },
-                exercise: OptionExercise::European,
-                expiry: parse_date(&x[1..])?,
-                strike: Decimal::from(k.parse::<u64>().ok()?),
-            })
-        }
-        _ => return None,
-    };
+    if f.len() < 3 {
+        return None;
+    }
+    let kind = parse_kind_fields(&f[2..])?;
     Some(MarketDataInstrument::new(f[0], f[1], kind))
+}
+
+/// `@<name_exchange>:<kind…>`
+fn parse_verbatim(tok: &str) -> Option<(String, MarketDataInstrumentKind)> {
+    let f: Vec<&str> = tok.strip_prefix('@')?.split(':').collect();
+    if f.len() < 2 {
+        return None;
+    }
+    Some((f[0].to_string(), parse_kind_fields(&f[1..])?))
+}
+
+/// all-formatted or all-verbatim (mixed lists do not exist in Rust: `bad-op`, as in the Lean driver)
+fn parse_subs(toks: &[String]) -> Option<Subs> {
+    if !toks.is_empty() && toks.iter().all(|t| t.starts_with('@')) {
+        Some(Subs::Verbatim(toks.iter().map(|t| parse_verbatim(t)).collect::<Option<Vec<_>>>()?))
+    } else if toks.iter().all(|t| !t.starts_with('@')) {
+        Some(Subs::Formatted(toks.iter().map(|t| parse_inst(t)).collect::<Option<Vec<_>>>()?))
+    } else {
+        None
+    }
 }
 
 fn parse_item(tok: &str) -> Option<Item> {
@@ -242,6 +276,11 @@ impl Obs for PublicTrade {
             side_str(self.side)
         ));
         out.push(format!("amt {}", f64_exact(self.amount)));
+        // the sign of `PublicTrade.amount` as the connector produces it (the spec is silent on it)
+        out.push(format!(
+            "sgn {}",
+            if self.amount < 0.0 { "neg" } else if self.amount == 0.0 { "zero" } else { "pos" }
+        ));
     }
 }
 
@@ -334,18 +373,42 @@ fn fmt_map(map: &Map<usize>) -> String {
 
 // ------------------------------------------------------------------------------------------ real code
 
-fn map_for<E, K>(kind: K, insts: &[MarketDataInstrument]) -> Map<usize>
+fn map_for<E, K>(kind: K, subs: &Subs) -> Map<usize>
 where
     E: Connector,
     K: SubscriptionKind,
     Subscription<E, Inst, K>: Identifier<E::Channel> + Identifier<E::Market>,
+    Subscription<E, VInst, K>: Identifier<E::Channel> + Identifier<E::Market>,
 {
-    let subs: Vec<Subscription<E, Inst, K>> = insts
-        .iter()
-        .enumerate()
-        .map(|(k, i)| Subscription::new(E::default(), Keyed::new(k, i.clone()), kind.clone()))
-        .collect();
-    WebSocketSubMapper::map(&subs).instrument_map
+    match subs {
+        Subs::Formatted(insts) => {
+            let subs: Vec<Subscription<E, Inst, K>> = insts
+                .iter()
+                .enumerate()
+                .map(|(k, i)| Subscription::new(E::default(), Keyed::new(k, i.clone()), kind.clone()))
+                .collect();
+            WebSocketSubMapper::map(&subs).instrument_map
+        }
+        // the third `Identifier<Market>` impl of every connector: `name_exchange` verbatim
+        Subs::Verbatim(insts) => {
+            let subs: Vec<Subscription<E, VInst, K>> = insts
+                .iter()
+                .enumerate()
+                .map(|(k, (name, ik))| {
+                    Subscription::new(
+                        E::default(),
+                        MarketInstrumentData {
+                            key: k,
+                            name_exchange: InstrumentNameExchange::new(name.as_str()),
+                            kind: ik.clone(),
+                        },
+                        kind.clone(),
+                    )
+                })
+                .collect();
+            WebSocketSubMapper::map(&subs).instrument_map
+        }
+    }
 }
 
 fn run_stateless<E, K, I>(map: &Map<usize>, json: &str, out: &mut Vec<String>)
@@ -711,7 +774,7 @@ fn json_for(ex: &str, kind: K, m: &Msg) -> String {
     }
 }
 
-fn build_map(ex: &str, kind: K, insts: &[MarketDataInstrument]) -> Option<Map<usize>> {
+fn build_map(ex: &str, kind: K, insts: &Subs) -> Option<Map<usize>> {
     Some(match (ex, kind) {
         ("binance_spot", K::Trades) => map_for::<BinanceSpot, _>(PublicTrades, insts),
         ("binance_spot", K::L1) => map_for::<BinanceSpot, _>(OrderBooksL1, insts),
@@ -798,7 +861,7 @@ fn run() {
             match op[0].as_str() {
                 "sub" if op.len() >= 3 => {
                     let kind = parse_kind(&op[2]);
-                    let insts: Option<Vec<_>> = op[3..].iter().map(|t| parse_inst(t)).collect();
+                    let insts = parse_subs(&op[3..]);
                     match (kind, insts) {
                         (Some(kind), Some(insts)) => match build_map(&op[1], kind, &insts) {
                             Some(map) => {
@@ -865,11 +928,20 @@ struct GInst {
     base: String,
     quote: String,
     kind: String, // S | P | Fyyyymmdd | Oyyyymmdd:k:C
+    /// `Some(name_exchange)`: subscribed through `MarketInstrumentData` under this name, verbatim
+    verbatim: Option<String>,
 }
 
 impl GInst {
     fn tok(&self) -> String {
-        format!("{}:{}:{}", self.base, self.quote, self.kind)
+        match &self.verbatim {
+            Some(name) => format!("@{name}:{}", self.kind),
+            None => format!("{}:{}:{}", self.base, self.quote, self.kind),
+        }
+    }
+    /// the market the instrument is subscribed under: the supplied name, or the venue's symbol
+    fn sub_symbol(&self, ex: &str) -> String {
+        self.verbatim.clone().unwrap_or_else(|| self.venue_symbol(ex))
     }
     fn venue_symbol(&self, ex: &str) -> String {
         let b = self.base.to_ascii_uppercase();
@@ -989,6 +1061,10 @@ fn generate(seed: u64, n_cases: usize, tier: &str) {
         out.case(format!("{}-{ex}-{kind}", id + 1));
         // instruments: small pool of names so that prefixes/case variants/concatenation collisions occur
         let n_inst = rng.range(1, if thorough { 6 } else { 4 }) as usize;
+        // a third of the cases subscribe through `MarketInstrumentData` (name_exchange verbatim): the name is
+        // the venue's symbol for the underlying (70 %), that symbol in the wrong case (15 %), or ANOTHER
+        // venue's symbol for the same underlying (15 %) - nothing normalises either
+        let verbatim_case = (id / PAIRS.len()) % 3 == 2;
         let mut insts: Vec<GInst> = Vec::new();
         for _ in 0..n_inst {
             let base = rng.pick(&ASSETS).to_string();
@@ -996,7 +1072,25 @@ fn generate(seed: u64, n_cases: usize, tier: &str) {
             if quote.eq_ignore_ascii_case(&base) {
                 quote = "usdt".into();
             }
-            insts.push(GInst { base, quote, kind: gen_kind(&mut rng, ex, iso_boundary) });
+            let mut inst = GInst { base, quote, kind: gen_kind(&mut rng, ex, iso_boundary), verbatim: None };
+            if verbatim_case {
+                let sym = inst.venue_symbol(ex);
+                inst.verbatim = Some(match rng.below(100) {
+                    0..=69 => sym,
+                    70..=84 => {
+                        if sym.chars().any(|c| c.is_ascii_uppercase()) {
+                            sym.to_ascii_lowercase()
+                        } else {
+                            sym.to_ascii_uppercase()
+                        }
+                    }
+                    _ => {
+                        let other = rng.pick(&PAIRS).0;
+                        inst.venue_symbol(other)
+                    }
+                });
+            }
+            insts.push(inst);
         }
         out.line(format!(
             "sub {ex} {kind} {}",
@@ -1007,6 +1101,7 @@ fn generate(seed: u64, n_cases: usize, tier: &str) {
             base: rng.pick(&ASSETS).to_string(),
             quote: "dai".into(),
             kind: gen_kind(&mut rng, ex, iso_boundary),
+            verbatim: None,
         };
         // Bitfinex: the venue confirms (a subset of) the subscriptions with distinct channel ids, each
         // symbol at most once; now and then it confirms something that was never subscribed
@@ -1019,7 +1114,7 @@ fn generate(seed: u64, n_cases: usize, tier: &str) {
             }
             for k in order {
                 if rng.chance(85) {
-                    let sym = insts[k].venue_symbol(ex);
+                    let sym = insts[k].sub_symbol(ex);
                     if chan_ids.iter().any(|(s, _)| *s == sym) {
                         continue;
                     }
@@ -1047,7 +1142,10 @@ fn generate(seed: u64, n_cases: usize, tier: &str) {
             let roll = rng.below(100);
             let (symbol, chan) = if roll < 55 {
                 let i = rng.pick(&insts);
-                (i.venue_symbol(ex), i.venue_channel(ex, kind))
+                // what the venue sends for the underlying; for a verbatim subscription half of the time the
+                // name it was subscribed under (differs when the name is not the venue's symbol)
+                let sym = if i.verbatim.is_some() && rng.chance(50) { i.sub_symbol(ex) } else { i.venue_symbol(ex) };
+                (sym, i.venue_channel(ex, kind))
             } else if roll < 70 {
                 (outsider.venue_symbol(ex), outsider.venue_channel(ex, kind))
             } else {
